@@ -169,6 +169,15 @@ func scriptCase(c *Ctx, fam *report.Family, f string, configured [][2]string, la
 			c.Rep.Note("write script: %v", err)
 			return
 		}
+		// every second script is configured through a symbolic link to the script file (a common layout: scripts
+		// kept in one place, linked per package); the slot must still hold the bytes of the script
+		if i%2 == 1 {
+			l := p + ".lnk"
+			_ = os.Remove(l)
+			if err := os.Symlink(p, l); err == nil {
+				p = l
+			}
+		}
 		paths[kv[0]] = p
 	}
 	s := *base
@@ -253,7 +262,7 @@ func runC09(c *Ctx) error {
 	dir := filepath.Join(c.Tmp, "scripts")
 	_ = os.MkdirAll(dir, 0o755)
 	base := &PkgSpec{Raw: []wire.Content{{Src: filepath.Join(tree.Root, "bin/tool"), Dst: "/usr/bin/tool"}}, Umask: 0o022, MTime: 1700000000}
-	fam := c.Rep.Family("scripts", "every subset of the configurable script slots of each format (exhaustive: 2^7 deb, 2^7 rpm, 2^6 apk, 2^6 archlinux, 2^4 ipk) with pairwise distinct random script bodies (shell text; binary without trailing newline; with NUL except rpm), plus empty-file and NUL-in-rpm edge cases; slots read back from control members / rpm tags / .INSTALL; non-trivial = at least one script configured")
+	fam := c.Rep.Family("scripts", "every subset of the configurable script slots of each format (exhaustive: 2^7 deb, 2^7 rpm, 2^6 apk, 2^6 archlinux, 2^4 ipk) with pairwise distinct random script bodies, every second one configured through a symbolic link to the script file (shell text; binary without trailing newline; with NUL except rpm), plus empty-file and NUL-in-rpm edge cases; slots read back from control members / rpm tags / .INSTALL; non-trivial = at least one script configured")
 	fam.Exhaustive = true
 	r := c.R.Fork("c09")
 	rounds := c.N(1, 25)
